@@ -187,10 +187,13 @@ loop:
 }
 
 func traverseMPT(root util.Uint256, stateModule core.StateRoot, writer *gio.BinWriter) error {
-	stateModule.SeekStates(root, []byte{}, func(k, v []byte) bool {
+	err := stateModule.SeekStates(root, []byte{}, func(k, v []byte) bool {
 		writer.WriteVarBytes(k)
 		writer.WriteVarBytes(v)
 		return writer.Err == nil
 	})
+	if err != nil {
+		return err
+	}
 	return writer.Err
 }
